@@ -91,6 +91,13 @@ class SecurityControlField:
         self.system_broadcast = system_broadcast
         self.service = service
 
+    def __eq__(self, other: object) -> bool:
+        """Equal operator."""
+        return (
+            isinstance(other, SecurityControlField)
+            and self.to_knx() == other.to_knx()
+        )
+
     @staticmethod
     def from_knx(raw: int) -> SecurityControlField:
         """Parse/deserialize from KNX raw data."""
